@@ -97,6 +97,8 @@ def run(ck: Check, repo: Repo) -> None:
     _alias_attrs(ck, repo, writer)
     _prefix(ck, repo, (load, load_cp))
     _wrapper(ck, repo)
+    from ._c07_r5 import run_r5
+    run_r5(ck, repo)
 
 
 # ------------------------------------------------------------------------------------------------ C07.6
